@@ -908,6 +908,128 @@ def agl_surrogates(ctx, repo):
         ctx.ob("AGL-sur", mod.rel + ":<module>", f"hole of the u-form {tuple(hex(x) for x in hole)} == refused range of the uni-form", [hole] == rej)
 
 
+
+def _consts(node, kinds):
+    """collect integer constants by role: shifts (>>, <<), masks (&), mod (%), steps (range third arg)"""
+    out = {"rshift": [], "lshift": [], "and": [], "mod": [], "or": []}
+    for n in ast.walk(node):
+        if isinstance(n, ast.BinOp) and isinstance(n.right, ast.Constant) and isinstance(n.right.value, int):
+            k = {ast.RShift: "rshift", ast.LShift: "lshift", ast.BitAnd: "and", ast.Mod: "mod", ast.BitOr: "or"}.get(type(n.op))
+            if k:
+                out[k].append(n.right.value)
+    return {k: out[k] for k in kinds}
+
+
+def text_helpers(ctx, repo):
+    ctx.rule("TXT-pair", "textTools: hexStr prints the high nibble then the low nibble of each byte and deHexStr reads two digits per byte in base 16; num2binary emits the low bit first, prepends, and groups by 8, binary2num shifts left by one per digit; pad rounds up to the next multiple", floor=5)
+    mod = repo.mod("misc/textTools.py")
+    h = mod.func("hexStr")
+    cat = next((st.value for st in ast.walk(h.node) if isinstance(st, ast.Assign) and isinstance(st.value, ast.BinOp) and norm(st.targets[0]) == "r"), None)
+    parts = []
+    n = cat
+    while isinstance(n, ast.BinOp) and isinstance(n.op, ast.Add):
+        parts.insert(0, n.right)
+        n = n.left
+    roles = []
+    for p_ in parts:
+        c = _consts(p_, ("rshift", "and"))
+        roles.append(("high" if c["rshift"] == [4] else "low" if not c["rshift"] else "?", c["and"]))
+    ok = roles == [("high", [15]), ("low", [15])]
+    ctx.ob("TXT-pair", h.where, f"hexStr appends {roles}", ok, "" if ok else "digits are not (byte >> 4) & 0xF followed by byte & 0xF")
+    d = mod.func("deHexStr")
+    rng = [c for c in calls_in(d.node) if call_name(c) == "range" and len(c.args) == 3]
+    ints = [c for c in calls_in(d.node) if call_name(c) == "int" and len(c.args) == 2]
+    width = None
+    if ints and isinstance(ints[0].args[0], ast.Subscript) and isinstance(ints[0].args[0].slice, ast.Slice):
+        lin = _linear_diff(ints[0].args[0].slice)
+        width = lin
+    ok = bool(rng) and try_fold(rng[0].args[2]) == 2 and bool(ints) and try_fold(ints[0].args[1]) == 16 and width == 2
+    ctx.ob("TXT-pair", d.where, f"deHexStr: step {try_fold(rng[0].args[2]) if rng else None}, digits per byte {width}, base {try_fold(ints[0].args[1]) if ints else None}", ok)
+    padfix = [st for st in ast.walk(d.node) if isinstance(st, ast.Assign) and isinstance(st.value, ast.BinOp) and isinstance(st.value.op, ast.Add) and isinstance(st.value.right, ast.Constant) and st.value.right.value == "0" and norm(st.value.left) == norm(st.targets[0])]
+    ctx.ob("TXT-pair", d.where, "an odd number of digits is completed with a trailing '0'", bool(padfix), "" if padfix else "the half byte is completed at the wrong end (or not at all)")
+    nb, bn = mod.func("num2binary"), mod.func("binary2num")
+    c1, c2 = _consts(nb.node, ("rshift", "and", "mod")), _consts(bn.node, ("lshift", "or"))
+    pre = [st for st in ast.walk(nb.node) if isinstance(st, ast.Assign) and norm(st.targets[0]) == "binary" and isinstance(st.value, ast.BinOp) and isinstance(st.value.left, ast.Constant) and norm(st.value.right) == "binary"]
+    ok = c1["rshift"] == [1] and c1["and"] == [1] and c1["mod"] == [8] and len(pre) == 2 and c2["lshift"] == [1] and c2["or"] == [1]
+    ctx.ob("TXT-pair", nb.where, f"num2binary {c1}, prepends each bit ({len(pre)} sites); binary2num {c2}", ok)
+    pf = mod.func("pad")
+    mods = [norm(n) for n in ast.walk(pf.node) if isinstance(n, ast.BinOp) and isinstance(n.op, ast.Mod)]
+    subs = [norm(n) for n in ast.walk(pf.node) if isinstance(n, ast.BinOp) and isinstance(n.op, ast.Sub)]
+    ok = mods == ["len(data) % size"] and subs == ["size - remainder"]
+    ctx.ob("TXT-pair", pf.where, f"pad: remainder = {mods}, added {subs}", ok)
+
+
+def _linear_diff(sl):
+    """upper - lower of a slice when both are `i` / `i + k`"""
+    from .otl import _linear
+
+    if sl.lower is None or sl.upper is None:
+        return None
+    a, b = _linear(sl.lower), _linear(sl.upper)
+    if a is None or b is None or a[0] != b[0]:
+        return None
+    return b[1] - a[1]
+
+
+def sparse_bit_set(ctx, repo):
+    ctx.rule("SBS", "IFT sparse bit set: header id<->branch factor maps are inverse, the header packs height << 2 | id and unpacks with the same shift and 2/5-bit masks, heights are capped by the spec's table, the bit streams write and read nodes with the same widths, masks and little-endian byte order, and the tree height is the smallest whose capacity exceeds the largest value", floor=7)
+    mod = repo.mod("misc/iftSparseBitSet.py")
+    cenv = module_env(repo, mod)
+    eh, dh = mod.func("_encodeHeader"), mod.func("_decodeHeader")
+    em = next((try_fold(st.value, cenv) for st in ast.walk(eh.node) if isinstance(st, ast.Assign) and isinstance(st.value, ast.Dict)), None)
+    dm = next((try_fold(st.value, cenv) for st in ast.walk(dh.node) if isinstance(st, ast.Assign) and isinstance(st.value, ast.Dict)), None)
+    ok = isinstance(em, dict) and isinstance(dm, dict) and {v: k for k, v in em.items()} == dm and sorted(dm) == [0, 1, 2, 3]
+    ctx.ob("SBS", eh.where, f"branch factor -> id {em}; id -> branch factor {dm}", ok, "" if ok else "the two maps are not inverse of each other")
+    ce, cd = _consts(eh.node, ("lshift",)), _consts(dh.node, ("rshift", "and"))
+    ok = ce["lshift"] == [2] and cd["rshift"] == [2] and sorted(cd["and"]) == [3, 31]
+    ctx.ob("SBS", dh.where, f"header: encode shifts {ce['lshift']}, decode shifts {cd['rshift']} and masks {sorted(cd['and'])}", ok)
+    mh = try_fold(mod.const("_BF_MAX_HEIGHT"), cenv)
+    ok = mh == {2: 31, 4: 16, 8: 11, 32: 7}
+    ctx.ob("SBS", mod.rel + ":<module>", f"_BF_MAX_HEIGHT = {mh}", ok, "" if ok else "IFT: heights above 31/16/11/7 are invalid for branch factors 2/4/8/32")
+    en = mod.func("encode")
+    bfs = [try_fold(n.iter, cenv) for n in ast.walk(en.node) if isinstance(n, ast.For) and norm(n.target) == "branchFactor"]
+    ok = bool(bfs) and isinstance(em, dict) and sorted(bfs[0]) == sorted(em)
+    ctx.ob("SBS", en.where, f"encode tries branch factors {bfs[0] if bfs else None}", ok)
+    caps = [n for n in ast.walk(en.node) if isinstance(n, ast.If) and "_BF_MAX_HEIGHT" in norm(n.test)]
+    dcap = [n for n in ast.walk(mod.func("decode").node) if isinstance(n, ast.If) and "maxHeight" in norm(n.test)]
+    ok = bool(caps) and isinstance(caps[0].test.ops[0], ast.Gt) and bool(dcap) and isinstance(dcap[0].test.ops[0], ast.Gt)
+    ctx.ob("SBS", en.where, "encoder skips and decoder refuses exactly the heights above the cap (strict >)", ok)
+    th = mod.func("_treeHeight")
+    w = next((n for n in ast.walk(th.node) if isinstance(n, ast.While)), None)
+    ok = w is not None and isinstance(w.test, ast.Compare) and norm(w.test.left) == "capacity" and isinstance(w.test.ops[0], ast.LtE) and norm(w.test.comparators[0]) == "maxValue"
+    ctx.ob("SBS", th.where, f"height grows while {norm(w.test) if w is not None else None}", ok, "" if ok else "capacity must exceed maxValue: a value equal to bf**h needs one more level")
+    rd, wr = mod.func("_InputBitStream.next"), mod.func("_OutputBitStream.write")
+
+    def arms(fn):
+        out = {}
+        node = next((st for st in fn.node.body if isinstance(st, ast.If)), None)
+        while node is not None:
+            key = norm(node.test)
+            body = ast.Module(body=node.body, type_ignores=[])
+            c = _consts(body, ("rshift", "lshift", "and"))
+            aug = sorted(norm(st.value) for st in ast.walk(body) if isinstance(st, ast.AugAssign) and isinstance(st.op, ast.Add) and norm(st.target).endswith(("subIndex", "byteIndex")))
+            wrap = sorted(try_fold(n.comparators[0]) for n in ast.walk(body) if isinstance(n, ast.Compare) and norm(n.left).endswith("subIndex") and isinstance(n.ops[0], ast.GtE))
+            out[key] = (sorted(set(c["rshift"] + c["lshift"])), aug, wrap)
+            node = node.orelse[0] if len(node.orelse) == 1 and isinstance(node.orelse[0], ast.If) else None
+        return out
+
+    ra, wa = arms(rd), arms(wr)
+    ok = set(ra) == set(wa) and len(ra) == 3
+    ctx.ob("SBS", rd.where, f"stream arms {sorted(ra)}", ok)
+    for key in sorted(set(ra) & set(wa)):
+        (rs, raug, rwrap), (ws, waug, wwrap) = ra[key], wa[key]
+        if "32" in key:
+            ok = [x for x in rs if x] == [8, 16, 24] and [x for x in ws if x] == [8, 16, 24] and raug == ["4"]
+            ctx.ob("SBS", wr.where, f"{key}: 4 bytes little-endian, read shifts {rs}, write shifts {ws}, advance {raug}", ok)
+        elif "8" in key and "2" not in key:
+            ctx.ob("SBS", wr.where, f"{key}: one byte per node, advance {raug}", raug == ["1"])
+        else:
+            ok = raug == ["1", "self.branchFactor"] and waug == ["self.branchFactor"] and rwrap == [8] and wwrap == [8]
+            ctx.ob("SBS", wr.where, f"{key}: sub-byte nodes advance by the branch factor and wrap at {rwrap}/{wwrap}", ok)
+    masks = [norm(st.value) for fn in (rd, wr) for st in ast.walk(fn.node) if isinstance(st, ast.Assign) and norm(st.targets[0]) == "mask"]
+    ctx.ob("SBS", rd.where, f"node mask on both sides: {masks}", masks == ["(1 << self.branchFactor) - 1"] * 2)
+
+
 # ---------------------------------------------------------------------------
 # F6 literal tables
 # ---------------------------------------------------------------------------
@@ -1184,4 +1306,4 @@ def ttprogram_push(ctx, repo):
     ctx.ob("F5-ttpush", a.where, f"PUSH[ ] optimiser classifies bytes with {tests}", ok)
 
 
-ALL = [ttprogram_push, f5_ps_operands, f5_uint32var, f5_255ushort, f5_base128, f5_points, f5_deltas, f5_subr_bias, f6_tables, f22_fixed_tools, f22_eexec, f22_time, f22_sstruct, tag_ident, f5_triplets, f5_offsize, f5_rebias, f5_device, f5_halved_offsets, agl_surrogates]
+ALL = [ttprogram_push, f5_ps_operands, f5_uint32var, f5_255ushort, f5_base128, f5_points, f5_deltas, f5_subr_bias, f6_tables, f22_fixed_tools, f22_eexec, f22_time, f22_sstruct, tag_ident, f5_triplets, f5_offsize, f5_rebias, f5_device, f5_halved_offsets, agl_surrogates, text_helpers, sparse_bit_set]
